@@ -237,3 +237,22 @@ def encode_subpacket(type_, body, critical=False, lenenc=None):
             raise WireError('too long for one octet')
         ln = bytes([n])
     return ln + bytes([type_ | (0x80 if critical else 0)]) + body
+
+
+def max_declared_subpacket_length(area):
+    """Tolerant walk over a (possibly corrupted) subpacket area: the largest length any
+    subpacket header declares, whether or not it fits."""
+    area = bytes(area)
+    off = 0
+    worst = 0
+    while off < len(area):
+        o = area[off]
+        if o < 192:
+            ln, sz = o, 1
+        elif o < 255:
+            ln, sz = ((o - 192) << 8) + (area[off + 1] if off + 1 < len(area) else 0) + 192, 2
+        else:
+            ln, sz = int.from_bytes(area[off + 1:off + 5], 'big'), 5
+        worst = max(worst, ln)
+        off += sz + max(ln, 1)
+    return worst
